@@ -181,6 +181,7 @@ def make_sim(typ, mesh, model):
 
 
 NAMED = {}
+VSCALE = [1.0]   # prescribed values and loads of the current case are multiplied by this factor (scaled twins)
 
 
 def nodes_where(mesh, where):
@@ -205,7 +206,7 @@ def nodes_where(mesh, where):
 
 def apply_bc(rec, bc):
     s = rec.simu
-    kind, where, values = bc["kind"], bc["where"], bc["values"]
+    kind, where, values = bc["kind"], bc["where"], [v_ * VSCALE[0] for v_ in bc["values"]]
     # node sets are resolved once, on the simulation the user acted on; the fresh reference gets the
     # same node indices (same numbering), not a re-evaluation of the selector on moved coordinates
     if "nodes" not in bc:
@@ -256,6 +257,7 @@ def do_solve(rec):
 class World:
     def __init__(self, typ, opts):
         self.typ = typ
+        VSCALE[0] = float(opts.get("vscale", 1.0))
         self.state = {"params": dict(DEFAULT_PARAMS[typ]), "split": opts.get("split", "Bourdin")}
         self.scale = 1.0
         self.model = make_model(typ, self.state)
@@ -290,6 +292,14 @@ class World:
             self.meshes.append(m)
         elif k == "newmesh":
             self.meshes.append(quad_mesh(op["nx"], op["ny"], op.get("lx", 1.0) * self.scale, op.get("ly", 1.0) * self.scale, op.get("elem", "QUAD4")))
+        elif k == "param" and op.get("near") is not None:
+            # near-equal change of the CURRENT value: 1e-6 relative, or one unit in the last place
+            cur_ = float(self.state["params"][op["name"]])
+            val_ = float(np.nextafter(cur_, np.inf)) if op["near"] == "ulp" else cur_ * (1.0 + 1.0e-6)
+            self.state.pop("C_override", None)
+            self.state.pop("arr_" + op["name"], None)
+            self.state["params"][op["name"]] = val_
+            set_param(self.typ, self.model, op.get("sub", False), op["name"], val_)
         elif k == "param":
             self.state.pop("C_override", None)   # the lazy update of the law recomputes C from its parameters
             self.state.pop("arr_" + op["name"], None)
@@ -351,6 +361,25 @@ class World:
             if k == "rho":
                 s.rho = op["value"]
                 rec.rho = op["value"]
+            elif k == "rho_arr":
+                # per-element density; shared=True: every simulation is handed THE SAME ndarray object
+                Ne = s.mesh.Ne
+                if op.get("shared"):
+                    if self.state.get("rho_shared") is None or self.state["rho_shared"].size != Ne:
+                        self.state["rho_shared"] = op["base"] * (1.0 + 0.5 * np.cos(np.arange(Ne)))
+                    arr = self.state["rho_shared"]
+                else:
+                    arr = op["base"] * (1.0 + 0.5 * np.sin(np.arange(Ne)))
+                s.rho = arr
+                rec.rho = arr.copy()          # what the user asked for, kept aside
+            elif k == "rho_aug":
+                # augmented assignment through the descriptor: get, in-place operator, set
+                if op.get("plus"):
+                    s.rho += op["factor"]
+                    rec.rho = rec.rho + op["factor"]
+                else:
+                    s.rho *= op["factor"]
+                    rec.rho = rec.rho * op["factor"]
             elif k == "ray":
                 s.Set_Rayleigh_Damping_Coefs(op["coefM"], op["coefK"])
                 rec.ray = (op["coefM"], op["coefK"])
@@ -412,7 +441,7 @@ class World:
         f = make_sim(self.typ, mesh, model)
         frec = SimRec(self.typ, f)
         if rec.rho is not None:
-            f.rho = rec.rho
+            f.rho = rec.rho.copy() if isinstance(rec.rho, np.ndarray) else rec.rho
         if rec.ray is not None:
             f.Set_Rayleigh_Damping_Coefs(*rec.ray)
         if rec.algo is not None:
